@@ -67,6 +67,35 @@ def attr_specs_check(violations):
     return n
 
 
+def raising_connect_family(violations):
+    """world.connect refuses one of the sources (as it does for an entity whose model lacks the attribute): the helper must not
+    come back as if nothing had happened - either the error reaches the caller or every source is connected"""
+    from mosaik.exceptions import ScenarioError
+    class Refusing(FakeWorld):
+        def __init__(self, bad): super().__init__(); self.bad = bad
+        def connect(self, src, dest, *attrs, **kw):
+            if src == self.bad: raise ScenarioError(f'the source attribute does not exist ({src})')
+            super().connect(src, dest, *attrs, **kw)
+    n = 0
+    for evenly in (True, False):
+        for nsrc, ndest in ((5, 2), (4, 4), (3, 1)):
+            for bad in range(nsrc):
+                n += 1
+                w = Refusing(100 + bad); rec = Recorder(bad); old = util.random; util.random = rec
+                src = list(range(100, 100 + nsrc)); out = 'returned'
+                try:
+                    util.connect_randomly(w, src, list(range(200, 200 + ndest)), 'a', evenly=evenly)
+                except ScenarioError: out = 'ScenarioError'
+                except BaseException as e: out = 'crash:' + type(e).__name__
+                finally: util.random = old
+                if out == 'returned' and sorted(s_ for s_, _ in w.conns) != src:
+                    violations.append(dict(kind='bulk', helper='connect_randomly', attrs=['a'], evenly=evenly, refusing_source=bad, nsrc=nsrc, ndest=ndest,
+                                           observed=[f'world.connect raised ScenarioError for source {100 + bad}, yet connect_randomly returned normally with connections {w.conns}: source {100 + bad} is not connected']))
+                elif out.startswith('crash'):
+                    violations.append(dict(kind='bulk', helper='connect_randomly', attrs=['a'], evenly=evenly, refusing_source=bad, observed=[out]))
+    return n
+
+
 def real_world_one(ninst, per, nsrc, evenly, maxc, sd):
     """the helpers on a real World with real Entity objects: the destinations are entities of SEVERAL instances of one SimConfig
     entry, so their entity ids coincide (Bus-0.e, Bus-1.e, ...) and only the simulator instance tells them apart"""
@@ -189,6 +218,7 @@ def run(out, info, tier, seed):
             violations.append(dict(kind='bulk', helper='connect_many_to_one', nsrc=nsrc, observed=[str(w.conns)]))
     n += attr_specs_check(violations)
     n += real_world_family(violations, seed)
+    n += raising_connect_family(violations)
     mism = []
     if info.driver_ok:
         got = common.batch_model(reqs)
@@ -210,7 +240,7 @@ def run(out, info, tier, seed):
 def replay(path, out):
     r = json.load(open(path))
     if r.get('kind') == 'bulk' and 'attrs' in r:
-        v = []; attr_specs_check(v); [print(x['helper'], x['attrs'], x['observed']) for x in v]
+        v = []; attr_specs_check(v); raising_connect_family(v); [print(x['helper'], x['attrs'], x['observed']) for x in v]
         if v: print(f'VIOLATION property=C18 replay={path}')
         return 1 if v else 0
     if r.get('kind') == 'real_world':
